@@ -346,7 +346,7 @@ def corr_pieces(model, r, n) -> dict:
         acc.case(["anchor", a], {"pattern": pa, "exact": ea}, model.ask({"op": "stripanchor", "s": a}), nontrivial=ea)
         t = gen_config_text(r, nlines=r.randint(0, 4))
         if not has_surrogate(t):
-            acc.case(["splitlines", t], t.splitlines(), model.ask({"op": "splitlines", "s": t}), nontrivial=len(t) > 0)
+            acc.case(["splitlines", t], t.split("\n"), model.ask({"op": "splitlines", "s": t}), nontrivial=len(t) > 0)
     return acc.result()
 
 
